@@ -390,7 +390,32 @@ fn rd_run(data: &[u8], ops: &str) -> (String, String) {
     let imp = {
         let mut out = vec![];
         let mut r = SliceReader::from(data);
+        // `P<n>`: carve a sub-reader of n octets and go on *inside it* (the parent waits on the stack);
+        // `Q`: back to the parent.  A sub-reader is a reader like any other, over its own window only.
+        let mut stack: Vec<SliceReader> = vec![];
         for op in &ops {
+            if op.starts_with('P') {
+                let n: usize = op[1..].parse().unwrap();
+                match guard(|| r.subreader(n)) {
+                    Some(sub) => {
+                        let parent = std::mem::replace(&mut r, sub);
+                        stack.push(parent);
+                        out.push(format!("{}=ok:{}/{}", op, r.len(), if r.is_empty() { 1 } else { 0 }));
+                    }
+                    None => {
+                        out.push(format!("{}=panic", op));
+                        break;
+                    }
+                }
+                continue;
+            }
+            if *op == "Q" {
+                if let Some(parent) = stack.pop() {
+                    r = parent;
+                }
+                out.push(format!("Q=ok:{}/{}", r.len(), if r.is_empty() { 1 } else { 0 }));
+                continue;
+            }
             let res = guard(|| unsafe {
                 match *op {
                     "u8" => r.read_u8_unchecked().to_string(),
@@ -430,7 +455,23 @@ fn rd_run(data: &[u8], ops: &str) -> (String, String) {
     let refr = {
         let mut out = vec![];
         let mut d = data;
+        let mut stack: Vec<&[u8]> = vec![];
         for op in &ops {
+            if op.starts_with('P') {
+                let n: usize = op[1..].parse().unwrap();
+                let (a, b) = d.split_at(n);
+                stack.push(b);
+                d = a;
+                out.push(format!("{}=ok:{}/{}", op, d.len(), if d.is_empty() { 1 } else { 0 }));
+                continue;
+            }
+            if *op == "Q" {
+                if let Some(p) = stack.pop() {
+                    d = p;
+                }
+                out.push(format!("Q=ok:{}/{}", d.len(), if d.is_empty() { 1 } else { 0 }));
+                continue;
+            }
             let fixed = |n: usize, d: &mut &[u8]| -> String {
                 let mut v: u64 = 0;
                 for i in 0..n {
